@@ -35,7 +35,10 @@ CONSTANTS
   MaxNodes,    \* maximal number of constructed (non-initial) nodes
   MaxRank,     \* maximal rank of any constructed tensor
   MaxDim,      \* maximal axis dimension
-  FinalOps     \* operations that may only be applied as the last step (passes etc.)
+  FinalOps,    \* operations that may only be applied as the last step (passes etc.)
+  OpLevels,    \* sequence of operation sets, one per program position (<< >>: use OpSet everywhere)
+  MiKinds,     \* subset of {"fixed", "name", "slice"}: entries allowed in the multi-index of a[...]
+  DumpFinalOnly \* TRUE: only programs whose last operation is in FinalOps are handed to the replay
 
 VARIABLE store
 vars == <<store>>
@@ -319,6 +322,34 @@ DoSym(a) == LET x == store[a] IN
   /\ Push(Mk("sym", <<a>>, << >>, x.sh, << >>,
              LAMBDA e, bd, c : CDiv(CAdd(At(x, e, bd, c), At(x, e, bd, <<c[2], c[1]>>)), CI(2))))
 
+\* ---- (pseudo-)determinant, (pseudo-)inverse, adjugate of m x n matrices, n <= m, as provided by
+\* ufl.compound_expressions (used by geometry lowering): pdet(A) = sqrt(det(A^T A)),
+\* pinv(A) = (A^T A)^-1 A^T  (real data: no conjugation, as in the code)
+MatNoFi(x) == IsVal(x) /\ Rank(x) = 2 /\ x.fi = << >> /\ x.sh[2] <= x.sh[1]
+GramOf(x, e) == [t \in Tup(<<x.sh[2], x.sh[2]>>) |->
+                   CSumSet(0..(x.sh[1] - 1), LAMBDA k : CMul(x.val[e][<<k, t[1]>>], x.val[e][<<k, t[2]>>]))]
+DoXDet(a) == LET x == store[a] IN
+  /\ MatNoFi(x)
+  /\ Push(Mk("xdet", <<a>>, << >>, << >>, << >>,
+             LAMBDA e, bd, c : IF x.sh[1] = x.sh[2] THEN DetOf(MatOf(x, e), x.sh[1])
+                               ELSE CSqrt(DetOf(GramOf(x, e), x.sh[2]))))
+DoXInv(a) == LET x == store[a] IN
+  /\ MatNoFi(x)
+  /\ Push(Mk("xinv", <<a>>, << >>, <<x.sh[2], x.sh[1]>>, << >>,
+             LAMBDA e, bd, c :
+               IF x.sh[1] = x.sh[2]
+               THEN CDiv(CofOf(MatOf(x, e), x.sh[1], c[2], c[1]), DetOf(MatOf(x, e), x.sh[1]))
+               ELSE LET G == GramOf(x, e)  n == x.sh[2] IN
+                    CSumSet(0..(n - 1), LAMBDA q :
+                       CMul(CDiv(CofOf(G, n, q, c[1]), DetOf(G, n)), x.val[e][<<c[2], q>>]))))
+\* adjugate = transpose of the cofactor matrix
+DoXAdj(a) == LET x == store[a] IN
+  /\ SquareNoFi(x) /\ x.sh[1] >= 2
+  /\ Push(Mk("xadj", <<a>>, << >>, x.sh, << >>, LAMBDA e, bd, c : CofOf(MatOf(x, e), x.sh[1], c[2], c[1])))
+DoXCofac(a) == LET x == store[a] IN
+  /\ SquareNoFi(x) /\ x.sh[1] >= 2
+  /\ Push(Mk("xcofac", <<a>>, << >>, x.sh, << >>, LAMBDA e, bd, c : CofOf(MatOf(x, e), x.sh[1], c[1], c[2])))
+
 -----------------------------------------------------------------------------
 (* Conditions and conditionals (conditional.py).  A condition is a node with IsBool; its    *)
 (* value is 1 / 0, undefined when an operand is undefined or (for <, >, <=, >=) not real.   *)
@@ -358,55 +389,77 @@ DoMaxMin(op, a, b) == LET x == store[a]  y == store[b] IN
 -----------------------------------------------------------------------------
 (* Algorithms: the result denotes what the operand denotes (same shape, free indices, value). *)
 (* `op` names the pass; the harness maps it to the real function.                           *)
+\* expand_indices works on scalar expressions without free indices (IndexExpander.terminal raises
+\* "Component size mismatch" otherwise); renumber_indices renames free indices, so it is only
+\* comparable on expressions without free indices.
+PassOk(op, x) == /\ IsVal(x)
+                 /\ op = "expand_indices" => TrueScalar(x)
+                 /\ op = "renumber" => x.fi = << >>
+                 /\ op = "point_eval" => x.fi = << >>      \* e(x, mapping, component): no index values given
 DoPass(op, a) == LET x == store[a] IN
-  /\ IsVal(x)
+  /\ PassOk(op, x)
   /\ Push(Node(op, <<a>>, << >>, "", x.sh, x.fi, x.val))
+\* variable(e): a labelled expression; denotes what e denotes
+DoVariable(a) == LET x == store[a] IN
+  /\ IsVal(x) /\ x.op # "variable" /\ x.fi = << >>   \* variable.py: "Variable cannot wrap an expression with free indices"
+  /\ Push(Node("variable", <<a>>, << >>, "", x.sh, x.fi, x.val))
 
 -----------------------------------------------------------------------------
-Mis(r) == [1..r -> (0..(MaxDim - 1)) \cup {IdxPool[k] : k \in 1..Len(IdxPool)} \cup {-1}]
+Mis(r) == [1..r -> (IF "fixed" \in MiKinds THEN 0..(MaxDim - 1) ELSE {})
+                   \cup (IF "name" \in MiKinds THEN {IdxPool[k] : k \in 1..Len(IdxPool)} ELSE {})
+                   \cup (IF "slice" \in MiKinds THEN {-1} ELSE {})]
 IdxSeqs == UNION {[1..r -> {IdxPool[k] : k \in 1..Len(IdxPool)}] : r \in 1..MaxRank}
+\* the operations enabled for the next constructed node: OpLevels[k] for the k-th constructed node
+\* (the last entry repeats), or OpSet when no levels are given
+CurOps == IF Len(OpLevels) = 0 THEN OpSet
+          ELSE LET k == Len(store) - NInit + 1 IN OpLevels[IF k <= Len(OpLevels) THEN k ELSE Len(OpLevels)]
 PassOps == {"lower", "expand_indices", "remove_ct", "renumber", "expand_derivatives", "strip_variables",
-            "remove_complex", "point_eval", "identity"} \cap OpSet
+            "remove_complex", "point_eval", "identity"} \cap CurOps
 
 Next ==
   /\ Room
   /\ \E a \in Ids : NotFinal(a) /\
-       \/ "neg" \in OpSet /\ DoNeg(a)
-       \/ "abs" \in OpSet /\ DoAbs(a)
-       \/ "conj" \in OpSet /\ DoConj(a)
-       \/ "real" \in OpSet /\ DoReal(a)
-       \/ "imag" \in OpSet /\ DoImag(a)
-       \/ "sqrt" \in OpSet /\ DoSqrt(a)
-       \/ "sign" \in OpSet /\ DoSign(a)
-       \/ "perp" \in OpSet /\ DoPerp(a)
-       \/ "transpose" \in OpSet /\ DoTranspose(a)
-       \/ "tr" \in OpSet /\ DoTr(a)
-       \/ "det" \in OpSet /\ DoDet(a)
-       \/ "inv" \in OpSet /\ DoInv(a)
-       \/ "cofac" \in OpSet /\ DoCofac(a)
-       \/ "dev" \in OpSet /\ DoDev(a)
-       \/ "skew" \in OpSet /\ DoSkew(a)
-       \/ "sym" \in OpSet /\ DoSym(a)
-       \/ "not" \in OpSet /\ DoNot(a)
-       \/ "index" \in OpSet /\ Rank(store[a]) \in 1..MaxRank /\ \E mi \in Mis(Rank(store[a])) : DoIndex(a, mi)
-       \/ "as_tensor" \in OpSet /\ \E ii \in IdxSeqs : DoAsTensor(a, ii)
+       \/ "neg" \in CurOps /\ DoNeg(a)
+       \/ "abs" \in CurOps /\ DoAbs(a)
+       \/ "conj" \in CurOps /\ DoConj(a)
+       \/ "real" \in CurOps /\ DoReal(a)
+       \/ "imag" \in CurOps /\ DoImag(a)
+       \/ "sqrt" \in CurOps /\ DoSqrt(a)
+       \/ "sign" \in CurOps /\ DoSign(a)
+       \/ "perp" \in CurOps /\ DoPerp(a)
+       \/ "transpose" \in CurOps /\ DoTranspose(a)
+       \/ "tr" \in CurOps /\ DoTr(a)
+       \/ "det" \in CurOps /\ DoDet(a)
+       \/ "inv" \in CurOps /\ DoInv(a)
+       \/ "cofac" \in CurOps /\ DoCofac(a)
+       \/ "dev" \in CurOps /\ DoDev(a)
+       \/ "skew" \in CurOps /\ DoSkew(a)
+       \/ "sym" \in CurOps /\ DoSym(a)
+       \/ "not" \in CurOps /\ DoNot(a)
+       \/ "variable" \in CurOps /\ DoVariable(a)
+       \/ "xdet" \in CurOps /\ DoXDet(a)
+       \/ "xinv" \in CurOps /\ DoXInv(a)
+       \/ "xadj" \in CurOps /\ DoXAdj(a)
+       \/ "xcofac" \in CurOps /\ DoXCofac(a)
+       \/ "index" \in CurOps /\ Rank(store[a]) \in 1..MaxRank /\ \E mi \in Mis(Rank(store[a])) : DoIndex(a, mi)
+       \/ "as_tensor" \in CurOps /\ \E ii \in IdxSeqs : DoAsTensor(a, ii)
        \/ \E op \in PassOps : DoPass(op, a)
        \/ \E b \in Ids : NotFinal(b) /\
-            \/ "add" \in OpSet /\ DoAdd(a, b)
-            \/ "sub" \in OpSet /\ DoSub(a, b)
-            \/ "mul" \in OpSet /\ DoMul(a, b)
-            \/ "div" \in OpSet /\ DoDiv(a, b)
-            \/ "pow" \in OpSet /\ DoPow(a, b)
-            \/ "dot" \in OpSet /\ DoDot(a, b)
-            \/ "inner" \in OpSet /\ DoInner(a, b)
-            \/ "outer" \in OpSet /\ DoOuter(a, b)
-            \/ "cross" \in OpSet /\ DoCross(a, b)
-            \/ \E op \in {"lt", "gt", "le", "ge", "eq", "ne"} \cap OpSet : DoCmp(op, a, b)
-            \/ \E op \in {"and", "or"} \cap OpSet : DoAndOr(op, a, b)
-            \/ \E op \in {"max", "min"} \cap OpSet : DoMaxMin(op, a, b)
-            \/ "list" \in OpSet /\ DoList(<<a, b>>)
-            \/ "list" \in OpSet /\ MaxDim >= 3 /\ \E c \in Ids : NotFinal(c) /\ DoList(<<a, b, c>>)
-            \/ "cond" \in OpSet /\ \E k \in Ids : DoCond(k, a, b)
+            \/ "add" \in CurOps /\ DoAdd(a, b)
+            \/ "sub" \in CurOps /\ DoSub(a, b)
+            \/ "mul" \in CurOps /\ DoMul(a, b)
+            \/ "div" \in CurOps /\ DoDiv(a, b)
+            \/ "pow" \in CurOps /\ DoPow(a, b)
+            \/ "dot" \in CurOps /\ DoDot(a, b)
+            \/ "inner" \in CurOps /\ DoInner(a, b)
+            \/ "outer" \in CurOps /\ DoOuter(a, b)
+            \/ "cross" \in CurOps /\ DoCross(a, b)
+            \/ \E op \in {"lt", "gt", "le", "ge", "eq", "ne"} \cap CurOps : DoCmp(op, a, b)
+            \/ \E op \in {"and", "or"} \cap CurOps : DoAndOr(op, a, b)
+            \/ \E op \in {"max", "min"} \cap CurOps : DoMaxMin(op, a, b)
+            \/ "list" \in CurOps /\ DoList(<<a, b>>)
+            \/ "list" \in CurOps /\ MaxDim >= 3 /\ \E c \in Ids : NotFinal(c) /\ DoList(<<a, b, c>>)
+            \/ "cond" \in CurOps /\ \E k \in Ids : DoCond(k, a, b)
 
 Spec == Init /\ [][Next]_vars
 
@@ -444,5 +497,5 @@ DumpRec == LET x == store[Len(store)] IN
   [prog |-> [k \in 1..(Len(store) - NInit) |-> Prog[NInit + k]],
    sh |-> x.sh, fi |-> x.fi, bool |-> IsBool(x),
    val |-> [e \in Envs |-> TabSeq(x.val[e])]]
-DumpInv == Live => PrintT(ToJson(DumpRec))
+DumpInv == (Live /\ (DumpFinalOnly => store[Len(store)].op \in FinalOps)) => PrintT(ToJson(DumpRec))
 =============================================================================
